@@ -11,7 +11,8 @@ def _fix_case(rng, tier, pooled=None):
     import numpy as np
     import pandas as pd
     from cnvlib.cnary import CopyNumArray
-    n_t = rng.choice([30, 60, 150]) if tier == "quick" else rng.choice([30, 60, 150, 600])
+    # also tiny tables: one or two usable bins per class (a single bin cannot be smoothed; fix c5b4d41)
+    n_t = rng.choice([2, 4, 30, 60, 150]) if tier == "quick" else rng.choice([2, 4, 30, 60, 150, 600])
     rows = []
     for c in ["chr1", "chr2", "chrX"][:rng.randint(1, 3)]:
         pos = 1000
@@ -76,6 +77,9 @@ def _fix_case(rng, tier, pooled=None):
                 df.loc[k, "log2"], df.loc[k, "depth"] = -20.0, 0.0
         return CopyNumArray(df, {"sample_id": "smp"})
     tgt = sample("t")
+    if not len(tgt):
+        keep = [True] * n          # the statement quantifies over empty antitarget tables, not empty target tables
+        tgt = sample("t")
     anti = sample("a") if rng.random() < 0.75 else sample("a")[:0]
     return dict(target=tgt, antitarget=anti, reference=reference,
                 do_gc=rng.random() < 0.5, do_edge=rng.random() < 0.5, do_rmask=rng.random() < 0.5)
@@ -143,6 +147,50 @@ def _call_fix(fn, a):
     return {"base": base, "other": other, "__expected_by_class__": _by_class(a)}
 
 
+def _class_without_usable_bin(old):
+    """a sample table (targets or antitargets) that has bins but none with coverage (all log2 < -15 or depth 0)"""
+    for nm in ("target", "antitarget"):
+        d = old[nm].data
+        if len(d) and ((d["log2"] < -15) | (d["depth"] == 0)).all():
+            return nm
+    return None
+
+
+def _few_bins_per_chromosome(old):
+    """a class whose chromosomes each hold at most two usable bins: the residuals from the chromosome medians are then
+    exactly symmetric (+x, -x / 0), the case in which biweight_midvariance switches formula on rounding noise"""
+    for nm in ("target", "antitarget"):
+        d = old[nm].data
+        d = d[~((d["log2"] < -15) | (d["depth"] == 0))]
+        if len(d) >= 2 and d.groupby("chromosome").size().max() <= 2:
+            return nm
+    return None
+
+
+def _chk_fix_weights_symmetric(args, res, old):
+    import numpy as np
+    if res["other"] is None or not _few_bins_per_chromosome(old):
+        return None
+    a, b = res["base"].data.reset_index(drop=True), res["other"].data.reset_index(drop=True)
+    if len(a) == len(b) and len(a):
+        dw = float(np.abs(a.weight.values - b.weight.values).max())
+        if not dw <= 1e-9:
+            return "%s inputs change the weights by up to %r when every chromosome holds at most two usable %s bins" % (
+                old["variant"], dw, _few_bins_per_chromosome(old))
+
+
+def _chk_fix_weights_dead_class(args, res, old):
+    import numpy as np
+    nm = _class_without_usable_bin(old)
+    if nm is None:
+        return None
+    w = res["base"].data["weight"].values
+    if len(w) and not ((w >= 1e-4 - 1e-15) & (w <= 1.0 + 1e-15)).all():
+        return "no %s bin has coverage: weights outside [0.0001, 1] (min %r max %r, %d missing)" % (
+            nm, np.nanmin(w) if np.isfinite(w).any() else float("nan"), np.nanmax(w) if np.isfinite(w).any() else float("nan"),
+            int(np.isnan(w).sum()))
+
+
 def _chk_fix(args, res, old):
     import numpy as np
     from contracts.c_tabio import natural_key
@@ -170,9 +218,9 @@ def _chk_fix(args, res, old):
             len(got), len(exp), [(g, e) for g, e in zip(got, exp) if g != e][:3])
     if out.data["log2"].isnull().any():
         return "fix emits missing log2 values (%d of %d bins)" % (int(out.data["log2"].isnull().sum()), len(out))
-    # weights
+    # weights (the case "a class has bins but none with coverage" is judged by its own clause below)
     w = out.data["weight"].values
-    if not ((w >= 1e-4 - 1e-15) & (w <= 1.0 + 1e-15)).all():
+    if not _class_without_usable_bin(old) and not ((w >= 1e-4 - 1e-15) & (w <= 1.0 + 1e-15)).all():
         return "weights outside [0.0001, 1]: min %r max %r" % (w.min(), w.max())
     # corrections off: sample - reference + one constant per class
     if not (old["do_gc"] or old["do_edge"] or old["do_rmask"]):
@@ -216,13 +264,17 @@ def _chk_fix(args, res, old):
             return "%s inputs change the emitted bins or their order" % old["variant"]
         d = float(np.abs(a.log2.values - b.log2.values).max()) if len(a) else 0.0
         dw = float(np.abs(a.weight.values - b.weight.values).max()) if len(a) else 0.0
+        if _few_bins_per_chromosome(old):
+            dw = 0.0       # judged by its own clause (weights_when_residuals_are_exactly_symmetric)
         if not (d <= 1e-9 and dw <= 1e-9):
             return "%s inputs change the result: max |dlog2| = %r, max |dweight| = %r (corrections gc=%s edge=%s rmask=%s, %d antitarget bins)" % (
                 old["variant"], d, dw, old["do_gc"], old["do_edge"], old["do_rmask"], len(old["antitarget"]))
 
 
 contract("cnvlib/fix.py::do_fix", params=dict(target=ObjT("CopyNumArray")), bounded=True, gen=_gen_fix, call=_call_fix,
-         props=("C04",), checks=[("kept_bins_offsets_centring_weights_invariance", _chk_fix)])
+         props=("C04",), checks=[("kept_bins_offsets_centring_weights_invariance", _chk_fix),
+                                 ("weights_when_a_class_has_no_usable_bin", _chk_fix_weights_dead_class),
+                                 ("weights_when_residuals_are_exactly_symmetric", _chk_fix_weights_symmetric)])
 
 
 # ----------------------------------------------------------------------------- errors
@@ -231,6 +283,12 @@ def _gen_fix_err(rng, tier, i):
     if i >= (40 if tier == "quick" else 600):
         return None
     d = _fix_case(rng, tier)
+    for _ in range(6):
+        if len(d["target"]):
+            break
+        d = _fix_case(rng, tier)      # the faults below are about sample bins: there must be one
+    if not len(d["target"]):
+        return None
     import pandas as pd
     fault = rng.choice(["missing", "dup_sample", "dup_ref"])
     t = d["target"]
@@ -242,8 +300,11 @@ def _gen_fix_err(rng, tier, i):
     elif fault == "dup_sample":
         d["target"] = t.as_dataframe(pd.concat([t.data, t.data.iloc[[rng.randrange(len(t))]]], ignore_index=True))
     else:
+        # duplicate a reference row that a sample bin is matched to (a duplicate nobody refers to is not the statement's case)
         r = d["reference"]
-        d["reference"] = r.as_dataframe(pd.concat([r.data, r.data.iloc[[rng.randrange(len(r))]]], ignore_index=True))
+        keys = set(zip(t.data.chromosome, t.data.start, t.data.end))
+        cand = [k for k, row in enumerate(r.data.itertuples(index=False)) if (row.chromosome, row.start, row.end) in keys]
+        d["reference"] = r.as_dataframe(pd.concat([r.data, r.data.iloc[[rng.choice(cand)]]], ignore_index=True))
     d["fault"] = fault
     return d
 
